@@ -326,6 +326,7 @@ def run(ch, ctx, fault=None):
             # an animation that repeats forever (the default) returns only because of Ctrl-C
             # during one of its inter-frame waits: the frame on display stays, cursor below it
             ctrl_c_at = None
+            ctrl_c_how = ["sleep"]
             if sc.animation and fits_screen and ch.bool("ctrl_c", 0.25):
                 if ch.bool("forever", 0.5):
                     sc.repeat = -1
@@ -333,6 +334,12 @@ def run(ch, ctx, fault=None):
                     ctx.probe("infinite_animation_ended_by_ctrl_c")
                 if len(seq) >= 2:
                     ctrl_c_at = ch.int("ctrl_c_at", 0, min(len(seq) - 2, 9))
+                    if ch.bool("at_write_start", 0.35):
+                        # ... or just as the output of the next frame begins, before a byte
+                        # of it went out: the screen is in the very same state
+                        ctrl_c_how[0] = "write_start"
+                        info["ctrl_c"] = "as the write of the next frame begins"
+                        ctx.probe("ctrl_c_as_next_frame_write_begins")
                     seq = seq[:ctrl_c_at + 1]
                     ctx.op("Ctrl-C during the wait after frame #%d (repeat=%d)"
                            % (ctrl_c_at, sc.repeat))
@@ -367,6 +374,11 @@ def run(ch, ctx, fault=None):
                     dw.check_outside(vt, rows, s_anim, (top, 0, top + H, W), inf,
                                      "old_api.animate")
                 if j == ctrl_c_at:
+                    if ctrl_c_how[0] == "write_start":
+                        k.fault = {"kind": "out.write", "k": k.counts.get("out.write", 0) + 1,
+                                   "when": "before", "exc": "KeyboardInterrupt"}
+                        k.fault_done = False
+                        return
                     ctx.probe("ctrl_c_during_inter_frame_wait")
                     raise KeyboardInterrupt
 
